@@ -243,6 +243,9 @@ def _movingnd(shard, ctx, col, np):
     col.sample({'function': 'moving_* n-D', 'shape': [2, 3, 4], 'axes': [0, 1, 2, -1]}, limit=1)
 
 
+SCALE = 2.0 ** -30
+
+
 def _pattern(shard, ctx, col, np):
     import itertools, math
     from fractions import Fraction as F
@@ -258,6 +261,8 @@ def _pattern(shard, ctx, col, np):
                 p = np.array(pat, dtype='float64')
                 try:
                     c = sp.correlation(t, p); di = sp.distance(t, p); b = sp.bcdc(t, p)
+                    # Pearson's coefficient and the BCDC ratio do not depend on the unit of the samples: the same signals in a unit 2^30 times larger (an exact scaling in binary floating point)
+                    cs = sp.correlation(t * SCALE, p * SCALE); bs = sp.bcdc(t * SCALE, p * SCALE)
                 except Exception as e:
                     col.violation('C19/pattern/raised', '%s: %s' % (type(e).__name__, e), {'trace': list(tr), 'pattern': list(pat)}); continue
                 col.transitions += 3
@@ -277,6 +282,8 @@ def _pattern(shard, ctx, col, np):
                         if not abs(c[i] - e) <= 1e-9:
                             col.violation('C19/correlation', 'correlation(%s, %s)[%d] = %r, Pearson is %r' % (list(tr), list(pat), i, float(c[i]), e), case)
                         else: col.err('correlation', abs(c[i] - e))
+                        if np.asarray(cs).shape == np.asarray(c).shape and not abs(cs[i] - e) <= 1e-9:
+                            col.violation('C19/correlation/low-amplitude', 'correlation(%s * 2^-30, %s * 2^-30)[%d] = %r, Pearson is %r' % (list(tr), list(pat), i, float(cs[i]), e), dict(case, scale='2^-30'))
                     else: col.count('zero_variance_windows_not_compared')
                     e2 = float(sum((a - b_) ** 2 for a, b_ in zip(x, y)))
                     col.nontrivial += 1
@@ -289,6 +296,8 @@ def _pattern(shard, ctx, col, np):
                         e = math.sqrt(float(vd)) / math.sqrt(float(vs))
                         if not abs(b[i] - e) <= 1e-7:
                             col.violation('C19/bcdc', 'bcdc(%s, %s)[%d] = %r, std(x-y)/std(x+y) is %r' % (list(tr), list(pat), i, float(b[i]), e), case)
+                        if np.asarray(bs).shape == np.asarray(b).shape and not abs(bs[i] - e) <= 1e-7:
+                            col.violation('C19/bcdc/low-amplitude', 'bcdc(%s * 2^-30, %s * 2^-30)[%d] = %r, std(x-y)/std(x+y) is %r' % (list(tr), list(pat), i, float(bs[i]), e), dict(case, scale='2^-30'))
                     else: col.count('zero_variance_windows_not_compared')
     col.sample({'function': 'correlation/distance/bcdc', 'trace': list(tr), 'pattern': list(pat)}, limit=1)
 
